@@ -41,6 +41,11 @@ REFLECTIVE_QUAL = {"operator.attrgetter", "operator.methodcaller", "importlib.im
 
 VALUE_TYPES = [str, bytes, list, tuple, dict, set, frozenset, int, float, bool, range, complex, decimal.Decimal, datetime.datetime, datetime.date, datetime.time, datetime.timedelta, collections.abc.Mapping, collections.abc.Sequence, collections.abc.Iterator]
 VOCAB = {a for t in VALUE_TYPES for a in dir(t) if not a.startswith("_")}
+# scalars: what the conversion part of the protocol (string/number conversion, dates) hands to a filter
+SCALAR_TYPES = [str, bytes, int, float, bool, range, complex, decimal.Decimal, datetime.datetime, datetime.date, datetime.time, datetime.timedelta]
+SCALAR_VOCAB = {a for t in SCALAR_TYPES for a in dir(t) if not a.startswith("_")}
+# containers: the protocol is item access, length and iteration; a mapping is iterated through its views
+CONTAINER_ITERATION = {"items", "keys", "values"}
 
 CONTROL_PARAMS = {"self", "cls", "context", "environment", "env", "static_context", "token", "stream", "buffer", "buf"}
 DATA_SOURCES = {"evaluate", "evaluate_async", "resolve", "get", "get_async", "get_item", "get_item_async", "_getitem", "getitem"}
@@ -185,8 +190,26 @@ def run(prog: Program, res: Result) -> None:
             if attr in PROTOCOL:
                 res.ok("C05.R2", site, what, "protocol hook")
                 continue
+            if attr in SCALAR_VOCAB:
+                res.ok("C05.R2", site, what, "method of a builtin scalar value type (str, number, date, range)")
+                continue
+            if attr in CONTAINER_ITERATION:
+                res.ok("C05.R2", site, what, "iteration of a mapping through its views")
+                continue
+            if attr in VOCAB and _engine_made(fi, v):
+                res.ok("C05.R2", site, what, "container built by the engine in this function (display / comprehension / list() / sorted())")
+                continue
             if attr in VOCAB:
-                res.ok("C05.R2", site, what, "method of a builtin/stdlib value type")
+                res.fail(
+                    "C05.R2",
+                    file=fi.file,
+                    line=node.lineno,
+                    qualname=fi.qualname,
+                    construct=f"{v}.{attr}",
+                    message=f"`.{attr}` is read on `{v}`, which can hold a context object: containers are read through item access, length and iteration only - "
+                    f"`.{attr}()` of a user's Mapping/Sequence (or of a dict subclass, where it bypasses __getitem__) is application code the protocol does not expose",
+                    what=what,
+                )
                 continue
             if attr in ("__class__", "__name__") and any(isinstance(a, ast.Raise) for a in fi.module.ancestors(node)):
                 res.ok("C05.R2", site, what, "type name used in an error message only")
@@ -296,6 +319,51 @@ def run(prog: Program, res: Result) -> None:
             bad = from_scope[0] if from_scope else f.node
             res.fail("C05.R6", file=f.file, line=getattr(bad, "lineno", f.node.lineno), qualname=f.qualname, construct=f"{f.qualname} resolves the catalog through the scope", message=f"{f.qualname} looks the catalog object up in the whole scope: `{{% assign translations = obj %}}` (or a with/for binding) makes the translation filters and the translate tag call obj.gettext()/ngettext()/pgettext()/npgettext() - methods of a context object chosen by the template", what=what)
     res.floor("C05.R6", "catalog resolvers", n_tr, 2)
+    # R6b: the mapping those resolvers read is the data the render was given, in every context ever built
+    res.rule("C05.R6b", "`base_globals`, the mapping the catalog is read from, only ever holds the data the render was given: every construction of a render context passes its parent's `base_globals` on unchanged (or omits it at the root, where __init__ falls back to the global data) and nothing else stores to the field - a copy that substitutes the scope makes `translations` assignable by a template")
+    n_bg = 0
+
+    def _is_base_globals(e: ast.AST | None, fn: ast.AST, depth: int = 0) -> bool:
+        if e is None:
+            return False
+        if isinstance(e, ast.Attribute) and e.attr == "base_globals":
+            return True
+        if isinstance(e, ast.IfExp):
+            return _is_base_globals(e.body, fn, depth) and _is_base_globals(e.orelse, fn, depth)
+        if isinstance(e, ast.Name) and depth < 3:
+            defs = [a.value for a in ast.walk(fn) if isinstance(a, ast.Assign) and any(isinstance(t, ast.Name) and t.id == e.id for t in a.targets)]
+            return bool(defs) and all(_is_base_globals(d, fn, depth + 1) for d in defs)
+        return False
+
+    ctx_cls = prog.cls("liquid2.context.RenderContext")
+    for f in prog.all_functions():
+        for c in ast.walk(f.node):
+            if isinstance(c, ast.Call):
+                kw = next((k for k in c.keywords if k.arg == "base_globals"), None)
+                if kw is None:
+                    continue
+                n_bg += 1
+                site = f"{f.file}:{c.lineno} {f.qualname}"
+                what = f"{f.qualname}: base_globals={norm(kw.value, 40)} is the parent's base_globals"
+                if _is_base_globals(kw.value, f.node):
+                    res.ok("C05.R6b", site, what, "passed on unchanged")
+                else:
+                    res.fail("C05.R6b", file=f.file, line=c.lineno, qualname=f.qualname, construct=f"{f.qualname}: base_globals={norm(kw.value, 40)}", message=f"{f.qualname} builds a render context whose base_globals is `{norm(kw.value, 60)}`, not the parent's base_globals: the catalog object (`translations`) is then looked up in a mapping templates can write to, so the engine calls gettext()/ngettext() methods of whatever object a template binds to that name", what=what)
+            if isinstance(c, (ast.Assign, ast.AugAssign, ast.AnnAssign)):
+                tgts = c.targets if isinstance(c, ast.Assign) else [c.target]
+                for t in tgts:
+                    if isinstance(t, ast.Attribute) and t.attr == "base_globals":
+                        n_bg += 1
+                        site = f"{f.file}:{c.lineno} {f.qualname}"
+                        what = f"{f.qualname}: store to .base_globals"
+                        in_init = f.cls is ctx_cls and f.name == "__init__"
+                        v = c.value if not isinstance(c, ast.AugAssign) else None
+                        ok_init = in_init and isinstance(v, ast.IfExp) and norm(v.body) == "base_globals" and norm(v.orelse) in ("self.globals", "global_data") or (in_init and norm(v) == "base_globals" if v is not None else False)
+                        if ok_init:
+                            res.ok("C05.R6b", site, what, "__init__: the constructor argument, or the global data at the root")
+                        else:
+                            res.fail("C05.R6b", file=f.file, line=c.lineno, qualname=f.qualname, construct=f"{f.qualname}: store to base_globals", message=f"{f.qualname} rebinds base_globals outside RenderContext.__init__ (or to something other than the constructor argument / the global data)", what=what)
+    res.floor("C05.R6b", "writers of base_globals", n_bg, 2)
 
     # ------------------------------------------------------------------ R4 data values are never called
     res.rule("C05.R4", "a value that can hold a context object is never called: no `v(...)`, `v[k](...)` on data-plane variables (calling is not part of the item/length/iteration/conversion protocol)")
@@ -481,6 +549,22 @@ def _is_data_expr(e: ast.AST, data: set[str]) -> bool:
         if isinstance(f, ast.Attribute) and f.attr in ("items", "values", "keys", "copy", "pop", "__liquid__") and _is_data_expr(f.value, data):
             return True
     return False
+
+
+def _engine_made(fi: FunctionInfo, v: str) -> bool:
+    """Every binding of v in fi is a fresh container the engine builds (never a parameter or a context value)."""
+    if v in fi.params():
+        return False
+    vals = []
+    for n in ast.walk(fi.node):
+        if isinstance(n, ast.Assign) and any(isinstance(t, ast.Name) and t.id == v for t in n.targets):
+            vals.append(n.value)
+        elif isinstance(n, ast.AnnAssign) and isinstance(n.target, ast.Name) and n.target.id == v and n.value is not None:
+            vals.append(n.value)
+        elif isinstance(n, (ast.For, ast.comprehension)) and any(isinstance(x, ast.Name) and x.id == v for x in ast.walk(n.target)):
+            return False
+    fresh = (ast.List, ast.Dict, ast.Set, ast.Tuple, ast.ListComp, ast.DictComp, ast.SetComp)
+    return bool(vals) and all(isinstance(x, fresh) or (isinstance(x, ast.Call) and isinstance(x.func, ast.Name) and x.func.id in ("list", "dict", "set", "sorted", "tuple", "defaultdict", "OrderedDict", "deque")) for x in vals)
 
 
 def _narrowed(prog: Program, fi: FunctionInfo, cfg: CFG, node: ast.AST, v: str, attr: str) -> str | None:
